@@ -286,7 +286,10 @@ MANIFEST_ENTRY = {
             "soundness of the executable Qc evaluator (unconditional on the rational fragment). Representative differentiable deepali "
             "functions (Euler / quaternion rotation matrices, homogeneous transforms and products, mse/ssd/ncc/lcc/dice, divergence / bending / "
             "curvature losses, Jacobian determinant, divergence, curl, affine flow) are traced from the source into that language on every "
-            "run (coq/Gen/ADTerms.v) and inherit the theorem; the Euler terms are proved equal to the C08 model. Tie: forward values and "
+            "run (coq/Gen/ADTerms.v) and inherit the theorem; the Euler terms are proved equal to the C08 model. Reverse-mode model G (nothing flows "
+            "through ECut = detach()/.data/no_grad, emitted by the translator wherever the source cuts the graph): G is the derivative iff no "
+            "variable-to-output path crosses a cut (theorem + refutation), every traced family is cut-free, and the gradient-flow skeleton of all "
+            "347 registry operations traced on the real autograd graph (coq/Gen/GradFlow.v) has no cut on any leaf-to-output path. Tie: forward values and "
             "torch.autograd Jacobians of the real functions against eval / D evaluated exactly in Qc inside Coq.",
     "note": "Partial: the autograd engine is trusted (compared, not verified); proof-level coverage is the traced families on small tensors; "
             "the remaining listed operations (all transform classes and inverses w.r.t. parameters and points, ImageTransformer, sample_image / "
